@@ -276,9 +276,32 @@ def run_spec(arg):
     out["stats"] = E.stats
     if out["result"] == "holds":
         U.validate_native(E, paths, lv, lambda vals: concrete_check(spec, spaced, vals, w), out, nmax=1)
+        if out["result"] == "holds":
+            # floats are reals in the symbolic model; the property also promises rel. 1e-12 for integers up to 64 bits, so two
+            # adversarial concrete valuations (integers around 2**53 mixed with small floats) are run natively against the
+            # exact python reference (validation runs, not the deciding step)
+            for big in ([2 ** 53 + 1, 2 ** 53, 2 ** 53 - 1, 3, 2 ** 53 + 3], [3, 2 ** 53 + 1, 2 ** 53, 5, 7]):
+                vals, ki, kf = [], 0, 0
+                for (_, kind, _) in lv.vars:
+                    if kind == "int":
+                        vals.append(big[ki % len(big)])
+                        ki += 1
+                    else:
+                        vals.append([0.5, 1.5, 0.25, 2.5][kf % 4])
+                        kf += 1
+                if info["idx"]:
+                    continue
+                r = concrete_check(spec, spaced, vals, w)
+                out["validated"] = out.get("validated", 0) + 1
+                if isinstance(r, dict):
+                    r["what"] = "native run on large integers differs from the exact reference: " + str(r.get("what") or "value")
+                    out["result"] = "violation"
+                    out["cex"] = r
+                    break
         if out["result"] == "violation":
             c = out["cex"]
             c.setdefault("expr", etext)
+            c.setdefault("what", "value differs")
     return out
 
 
